@@ -102,7 +102,11 @@ func (f *formatter) formatList(nodes []ast.Vertex, separator byte) []*token.Toke
 func (f *formatter) formatStmts(list *[]ast.Vertex) {
 	var insertCounter int
 
-	for i, stmt := range *list {
+	// iterate over a private copy: insert() shifts the elements in place when the list has spare capacity
+	stmts := make([]ast.Vertex, len(*list))
+	copy(stmts, *list)
+
+	for i, stmt := range stmts {
 		f.lastSemiColon = nil
 
 		if _, ok := stmt.(*ast.StmtInlineHtml); ok {
